@@ -278,6 +278,8 @@ def compare_dag(prog, dag, modname):
             mode = prog['nodes'][n['generic_of']].get('mode')
         if mode in ('async', 'async_tagged'):
             continue
+        if mode == 'inline':
+            continue      # non_async: executed in place, uses no pool (the flag the engine computed before D41 was the defect)
         if mode == 'process':
             need_p = True
         else:
